@@ -503,6 +503,12 @@ func Exec(sc *Scenario) *Run {
 		}
 		cli = rc
 		r.Cli = rc
+	case "retry", "retry-retryfirst":
+		// RetryClient driven directly through the Retryer contract by a harness-owned loop
+		// (Dial, SetClient, Connect, Resubscribe/Retry in either order, wait for Done).
+		rl := &retryLoop{RetryClient: retry, d: d, sc: sc, tr: tr, base: base, max: max, to: to, stop: make(chan struct{}), done: make(chan struct{}), first: make(chan error, 1)}
+		cli = rl
+		r.Cli = rl
 	default:
 		r.Inconcl = "unknown client kind " + sc.Client
 		return r
@@ -811,4 +817,112 @@ func ackCount(ev []memnet.Event, key string) int {
 		}
 	}
 	return n
+}
+
+// retryLoop is a hand-written reconnect loop around RetryClient, following the Retryer contract
+// ("SetClient sets the new BaseClient. Call Retry() and Resubscribe() to process queued messages and
+// subscriptions"). It implements mqtt.Client: Connect starts the loop and waits for the first
+// established connection, Disconnect stops it.
+type retryLoop struct {
+	*mqtt.RetryClient
+	d             *Dialer
+	sc            *Scenario
+	tr            *memnet.Trace
+	base, max, to int
+	stop, done    chan struct{}
+	first         chan error
+	stopOnce      sync.Once
+}
+
+func (l *retryLoop) Connect(ctx context.Context, clientID string, opts ...mqtt.ConnectOption) (bool, error) {
+	go l.run(clientID, opts)
+	select {
+	case err := <-l.first:
+		return false, err
+	case <-ctx.Done():
+		return false, ctx.Err()
+	}
+}
+
+func (l *retryLoop) run(clientID string, opts []mqtt.ConnectOption) {
+	defer close(l.done)
+	ctx := context.Background()
+	wait := time.Duration(l.base) * time.Millisecond
+	initialized := false
+	sleep := func() bool {
+		select {
+		case <-time.After(wait):
+		case <-l.stop:
+			return false
+		}
+		wait *= 2
+		if m := time.Duration(l.max) * time.Millisecond; wait > m {
+			wait = m
+		}
+		return true
+	}
+	for {
+		select {
+		case <-l.stop:
+			return
+		default:
+		}
+		baseCli, err := l.d.DialContext(ctx)
+		if err != nil {
+			if !sleep() {
+				return
+			}
+			continue
+		}
+		l.RetryClient.SetClient(ctx, baseCli)
+		cctx, cancel := context.WithTimeout(ctx, time.Duration(l.to)*time.Millisecond)
+		sp, err := l.RetryClient.Connect(cctx, clientID, opts...)
+		cancel()
+		if err != nil {
+			baseCli.Close()
+			<-baseCli.Done()
+			if !sleep() {
+				return
+			}
+			continue
+		}
+		wait = time.Duration(l.base) * time.Millisecond
+		resub := initialized && (!sp || l.sc.AlwaysResub)
+		if l.sc.Client == "retry-retryfirst" {
+			l.RetryClient.Retry(ctx)
+			if resub {
+				l.RetryClient.Resubscribe(ctx)
+			}
+		} else {
+			if resub {
+				l.RetryClient.Resubscribe(ctx)
+			}
+			l.RetryClient.Retry(ctx)
+		}
+		if !initialized {
+			initialized = true
+			l.first <- nil
+		}
+		select {
+		case <-baseCli.Done():
+			if baseCli.Err() == nil {
+				return
+			}
+		case <-l.stop:
+			return
+		}
+		if !sleep() {
+			return
+		}
+	}
+}
+
+func (l *retryLoop) Disconnect(ctx context.Context) error {
+	l.stopOnce.Do(func() { close(l.stop) })
+	err := l.RetryClient.Disconnect(ctx)
+	select {
+	case <-l.done:
+	case <-ctx.Done():
+	}
+	return err
 }
